@@ -5,7 +5,7 @@ use rand::Rng;
 use rand_chacha::ChaCha20Rng;
 
 /// the property's definition, evaluated directly on the implementation's compression function
-fn definitional(leaves: &[[u8; 32]]) -> [u8; 32] {
+pub fn definitional(leaves: &[[u8; 32]]) -> [u8; 32] {
     if leaves.is_empty() { return [0u8; 32]; }
     let mut level: Vec<[u8; 32]> = leaves.to_vec();
     while level.len() > 1 {
